@@ -16,7 +16,9 @@ TRUSTED = ["cv2.findContours is a black box: no model of it is attempted; what F
            "around the real calls while the images are parsed (up to 24 contractions and 3 artefact searches per run; a contraction is given the vertex ids and the "
            "tables restricted to the artefact's neighbourhood, and the harness checks that nothing outside it changed); for three parses per run (meshes of at most 900 pixels) the "
            "grouping of the artefact vertices, the state after all contractions and the mesh create_lattice returns (after the removal of isolated cells) = `artefacts` / `clean_up` / "
-           "`finish_lattice` of the model on the whole state (five parses per run, meshes of at most 900 pixels); the inner-triangle pass, which runs before the artefact search, is not modelled",
+           "`finish_lattice` of the model on the whole state (five parses per run, meshes of at most 900 pixels), and the state the clean-up starts from = `mesh_of_lattice (lattice contours)` - "
+           "so that on those parses create_lattice is modelled end to end from the kept contours to the returned mesh; the inner-triangle pass, which runs before the artefact search on about one "
+           "parse in twenty, is not modelled (such parses are tied from the artefact search on)",
            "expected topology of the generated images comes from the lattice generator, not from forsys"]
 ASSUMPTIONS = ["generated images follow the convention of the shipped ones: white frame on the image border, skeleton not touching it; framed images are also padded "
                "literally (frame inside the picture), where tissues of few cells fall under known finding D26"]
@@ -224,6 +226,10 @@ def t3_cases(res, exprs):
             if whole["final"] is not None:
                 e_ += f" && mesh_eqb (clean_up m) {_mesh_lit(whole['final'])}"
                 res.count("whole clean-up pass (all contractions of a parse) against Model/SkeletonT3.v")
+            if whole.get("contours") is not None:
+                cl_ = "[" + "; ".join("[" + "; ".join(f"({p[0]}, {p[1]})" for p in c_) + "]" for c_ in whole["contours"]) + "]"
+                e_ += f" && mesh_eqb (mesh_of_lattice (Skeleton.lattice {cl_})) m"
+                res.count("state the clean-up starts from = mesh_of_lattice of the kept contours (end to end with Model/Skeleton.v)")
             if whole.get("returned") is not None:
                 e_ += f" && mesh_eqb (finish_lattice m) {_mesh_lit(whole['returned'])}"
                 res.count("returned mesh = finish_lattice of the model (contractions, then removal of isolated cells)")
@@ -274,6 +280,8 @@ def observe(path, mirror_y, ne):
         for r_ in T3REC:
             if r_[0] == "ga" and r_[3]["sk"] == id(sk):
                 r_[3]["returned"] = _snap(sk)      # what create_lattice returns: after the removal of isolated cells
+                if not mirror_y and len(r_[1]["verts"]) == sk.vertex_id and len(r_[1]["edges"]) == sk.edge_id and len(r_[1]["cells"]) == sk.cell_id:
+                    r_[3]["contours"] = [[(int(p[0]), int(p[1])) for p in c_] for c_ in contours]   # the inner-triangle pass removed nothing
                 r_[3]["sk"] = None                 # (the id may be re-used by a later object)
     with impl.quiet():
         raw = {"vertices": int(sk.vertex_id), "cells": int(sk.cell_id), "cycles": [[w.id for w in cc.vertices] for cc in c.values()],
